@@ -10,3 +10,4 @@ import Ymq.Props.C03Qs64
 #print axioms Ymq.C03Qs64.qs64_no_panic_of_nonsquare
 #print axioms Ymq.C03Qs64.qs64_no_panic
 #print axioms Ymq.C03Qs64.qs64_square_nk_counterexample
+#print axioms Ymq.C03Qs64.usesQs64_of_model
